@@ -18,6 +18,8 @@ A program is a JSON-able list of statements; each statement defines a variable:
     ["c0", "copy", "e0"] ["c1", "name", "e0", "nm"] ["c2", "leave_whitespace", "e0"] ["_", "ignore", "e0", "cmt"]
     ["_", "action", "e0", ["const","X"]]   ["_", "condition", "e0", false, {"fatal": true}]  ["_", "call_during_try", "e0"]
     ["w0", "set_whitespace_chars", "e0", " \t"]
+    ["x0", "infix_notation", "e0", [[op, arity, "L"|"R"] | [op, arity, assoc, [action tags]] ...], {"lpar": P, "rpar": P}]
+         op = "str" | {"var": name} | [op, op] (arity 3);  P = "str" | {"lit": "("} (kept Literal) | {"sup": "("} | {"var": name}
 Statements whose first element is "_" mutate an existing variable and define nothing.
 """
 from __future__ import annotations
@@ -207,10 +209,88 @@ def build(pp, prog, use_hook=None) -> Built:
             if use_hook is not None:
                 use_hook(b, a[0], ref(a[0]), a[1] if len(a) > 1 else None)
             continue
+        elif op == "infix_notation":
+            def opx(x):
+                if isinstance(x, dict):
+                    if "var" in x:
+                        return env[x["var"]]
+                    if "lit" in x:
+                        return pp.Literal(x["lit"])
+                    if "sup" in x:
+                        return pp.Suppress(pp.Literal(x["sup"]))
+                    raise ValueError(x)
+                if isinstance(x, list):
+                    return tuple(opx(y) for y in x)
+                return x
+            levels = []
+            for lv in a[1]:
+                spec = [opx(lv[0]), lv[1], {"L": pp.OpAssoc.LEFT, "R": pp.OpAssoc.RIGHT}[lv[2]]]
+                if len(lv) > 3 and lv[3]:
+                    fns = []
+                    for tag in lv[3]:
+                        fns.append((make_action(pp, tag), tag))
+                    spec.append(tuple(f for f, _ in fns))
+                levels.append((tuple(spec), lv[3] if len(lv) > 3 else None))
+            kw = dict(a[2]) if len(a) > 2 else {}
+            pars = {}
+            if "lpar" in kw:
+                pars["lpar"] = opx(kw["lpar"])
+            if "rpar" in kw:
+                pars["rpar"] = opx(kw["rpar"])
+            v = pp.infix_notation(ref(a[0]), [sp for sp, _ in levels], **pars)
+            if any(tags for _, tags in levels):
+                # infix_notation wraps the functions itself (set_parse_action -> _trim_arity): recover the library tag
+                # of each wrapper from its behaviour on a probe
+                for x in [y for y in _walk_all(v) if type(y) is pp.And and y.parseAction]:
+                    for w in x.parseAction:
+                        if id(w) not in b.act_tags:
+                            b.act_tags[id(w)] = _probe_tag(pp, w)
+                            b._keep.append(w)
         else:
             raise ValueError(f"unknown statement {st!r}")
         env[var] = v
     return b
+
+
+def _walk_all(root):
+    seen, todo, out = set(), [root], []
+    while todo:
+        x = todo.pop()
+        if id(x) in seen:
+            continue
+        seen.add(id(x))
+        out.append(x)
+        todo.extend(x.recurse())
+    return out
+
+
+def _probe_tag(pp, w):
+    """library tag of a wrapped parse action, recovered from its behaviour on a probe token list"""
+    probe = pp.ParseResults(["p", "q"])
+    try:
+        r = w("pq", 0, probe)
+    except pp.ParseFatalException:
+        return ["failF"]
+    except pp.ParseException:
+        return ["failP"]
+    if r is None:
+        return ["app", probe.as_list()[2]] if len(probe) == 3 else ["none"]
+    r = list(r)
+    if r == []:
+        return ["drop"]
+    if r == ["q", "p"]:
+        return ["rev"]
+    if r == ["p", "q", "p", "q"]:
+        return ["dup"]
+    if len(r) == 1 and isinstance(r[0], str):
+        return ["const", r[0]]
+    raise Unsupported("foreign parse action")
+
+
+def is_fb(pp, e):
+    """the captive `_FB` class of infix_notation (helpers.py:807-811): a FollowedBy subclass with its own parseImpl"""
+    t = type(e)
+    return t is not pp.FollowedBy and issubclass(t, pp.FollowedBy) and "parseImpl" in t.__dict__
 
 
 # ---------------------------------------------------------------------------------------------------
@@ -220,16 +300,19 @@ def _chars(cs):
     return "".join(sorted(cs))
 
 
-def extract(b: Built, root):
-    """returns (list of node S-expressions, root index). The caller must have streamlined `root`."""
-    nodes, _ris, _ids, _order = extract_multi(b, [root])
+def extract(b: Built, root, allow_fb=False):
+    """returns (list of node S-expressions, root index). The caller must have streamlined `root`.
+    allow_fb: accept infix_notation's `_FB` lookahead objects; they are emitted with kind `followedBy` and their
+    indices are stored in `b.fb_ids` (the caller must then use the `ppx` driver command, not `pp`)."""
+    nodes, _ris, _ids, _order = extract_multi(b, [root], allow_fb=allow_fb)
     return nodes, 0
 
 
-def extract_multi(b: Built, roots):
+def extract_multi(b: Built, roots, allow_fb=False):
     """several roots in one table (C12: pools, pre/post-streamline tables): returns
     (nodes, [index of each root], {id(obj): index}, [objects in index order])"""
     pp = b.pp
+    b.fb_ids = []
     core = pp.core
     ids, order = {}, []
 
@@ -305,6 +388,9 @@ def extract_multi(b: Built, roots):
             kind = [Sym("notAny"), visit(e.expr)]
         elif t is pp.FollowedBy:
             kind = [Sym("followedBy"), visit(e.expr)]
+        elif allow_fb and is_fb(pp, e):
+            kind = [Sym("followedBy"), visit(e.expr)]
+            b.fb_ids.append(i - 1)
         elif t is pp.Located:
             kind = [Sym("located"), visit(e.expr)]
         elif t is pp.Group:
